@@ -177,7 +177,7 @@ theorem unknown_implicit (dictV : Tag → Option VVr) (bs : Bytes) (h : implicit
 
 theorem preHeader_init (cfg : Cfg) (be g : Bool) (bs : Bytes) (base : Nat) :
     preHeader cfg be g (RSt.init bs base) = .go (RSt.init bs base) := by
-  simp [preHeader, RSt.init]
+  simp [preHeader, preBody, RSt.init]
 
 theorem headerStep_go {cfg : Cfg} {r : HdrRes} {s s' : RSt} (h : headerStep cfg r s = .go s') :
     ∃ h0 n rest, r = .ok h0 n rest ∧ h0.tag = Tag.itemDelim := by
